@@ -147,6 +147,7 @@ Proof.
       * rewrite get_set_other in Hg by exact Hne. eauto.
   - left. eauto.
   - exfalso. eapply Hno. reflexivity.
+  - left. eauto.
 Qed.
 
 (** one step of a joint history: either a step of the service module, with the oracle events the
